@@ -100,6 +100,9 @@ def run_e2e(args):
     return out
 
 
+FAULTS: list = []          # the PMAPFAULT lines of the last cargo_harness run (mapped function panicking on one item): used by C07
+
+
 def cargo_harness(ctx, long_stall_ms=None):
     """Copy /repo/rust to scratch, add the integration test, run it (target dir cached by source hash)."""
     work = ctx.scratch / "rustcrate"
@@ -114,6 +117,7 @@ def cargo_harness(ctx, long_stall_ms=None):
                         "--", "--nocapture", "--test-threads=1"], cwd=work, env=env, capture_output=True, text=True, timeout=2400)
     lines = [json.loads(l[5:]) for l in p.stdout.split("\n") if l.startswith("PMAP ")]
     traces = [json.loads(l[10:]) for l in p.stdout.split("\n") if l.startswith("PMAPTRACE ")]
+    FAULTS[:] = [json.loads(l[10:]) for l in p.stdout.split("\n") if l.startswith("PMAPFAULT ")]
     return lines, traces, p.returncode, (p.stdout + p.stderr)[-1500:]
 
 
